@@ -14,6 +14,11 @@
    Treating a critical section as atomic is the usual reduction for properly locked code: it is an
    assumption of the model (lock discipline: TSan build of the harness; lock order
    serial.mutex -> ldmWindowMutex: checked per run by the harness).
+   The ldmWindowMutex section nested in a serial.mutex section (ZSTDMT_serialState_update,
+   ZSTDMT_serialState_ensureFinished) is part of the enclosing step.  The caller takes ldmWindowMutex
+   alone, so it can observe the new ldmWindow from the INNER unlock on; nothing else the pool thread
+   does before the outer unlock (serial.nextJobID++, the broadcast, the checksum update) is visible to
+   any thread before that unlock.  The tie therefore linearises such a step at the inner unlock.
 
    Job payloads are abstract: what the compressor produces for a chunk, and whether an allocation
    or a compression call fails, comes from [payload] (an oracle indexed by frame and job id, filled
